@@ -222,7 +222,8 @@ def block_set_number_densities_and_refusal(ctx, pattern):
 
 @harness("C02", bounds="real geometry incl. derived-shape coolant, symbolic block height and densities; new mass "
                        "fraction in (0.01,0.9) symbolic", stubs=STUBS, qtimeout_ms=30000,
-         instances={"quick": [dict(pattern="typical", nuc="U235"), dict(pattern="shared", nuc="FE")]})
+         instances={"quick": [dict(pattern="shared", nuc="FE")],
+                    "thorough": [dict(pattern="typical", nuc="U235"), dict(pattern="shared", nuc="FE")]})
 def block_set_mass_fracs(ctx, pattern, nuc):
     b = _build.mk_block(coolant=True)
     PATTERNS[pattern]["coolant"] = ["NA"]
